@@ -42,8 +42,12 @@ func dynamize(t *rapid.T, ty spec.T) spec.T {
 
 // drawValue draws a value spec and a constraint it conforms to.
 func drawValue(t *rapid.T, unknown bool) (spec.V, spec.T) {
-	depth := rapid.IntRange(0, 3).Draw(t, "depth")
+	depth := rapid.SampledFrom([]int{1, 2, 2, 3, 3, 0}).Draw(t, "depth")
 	ty := gen.Type(gen.TypeOpts{Depth: depth, Dynamic: true}).Draw(t, "vtype")
+	for i := 0; i < 2 && depth > 0 && (ty.IsPrim() || ty.K == spec.KDynamic); i++ {
+		// prefer structured roots: a mutated scalar rarely takes a decoder past its first token
+		ty = gen.Type(gen.TypeOpts{Depth: depth, Dynamic: true}).Draw(t, "vtype")
+	}
 	v := gen.Value(ty, gen.ValOpts{Null: true, Unknown: unknown, NoInf: !unknown, MaxElems: 3}).Draw(t, "value")
 	return v, dynamize(t, v.T)
 }
@@ -142,8 +146,12 @@ func genMutImplied(format, dec string) func(t *rapid.T) Input {
 
 // genMutType: mut/json-type (both entry points of the type decoder).
 func genMutType(t *rapid.T) Input {
-	o := gen.TypeOpts{Depth: rapid.IntRange(0, 3).Draw(t, "depth"), Dynamic: true, Optional: true}
-	orig, ok := encodeType(gen.Type(o).Draw(t, "type"))
+	o := gen.TypeOpts{Depth: rapid.SampledFrom([]int{1, 2, 2, 3, 3, 0}).Draw(t, "depth"), Dynamic: true, Optional: true}
+	ty := gen.Type(o).Draw(t, "type")
+	for i := 0; i < 2 && o.Depth > 0 && (ty.IsPrim() || ty.K == spec.KDynamic); i++ {
+		ty = gen.Type(o).Draw(t, "type") // prefer structured descriptors
+	}
+	orig, ok := encodeType(ty)
 	if !ok {
 		orig = []byte(`"string"`)
 	}
@@ -178,6 +186,14 @@ func genRaw(format string, decs []string) func(t *rapid.T) Input {
 			data = rapid.SliceOfN(rapid.Byte(), 0, 48).Draw(t, "bytes")
 		default:
 			n := rapid.IntRange(0, 24).Draw(t, "natoms")
+			if rapid.Bool().Draw(t, "opener") {
+				// start inside a container so that the decoder gets past its first token
+				if format == "msgpack" {
+					data = append(data, rapid.SampledFrom([][]byte{{0x91}, {0x92}, {0x93}, {0x81}, {0x82}, {0x92, 0xc4, 8, '"', 's', 't', 'r', 'i', 'n', 'g', '"'}, {0xdc, 0, 2}, {0xde, 0, 1}}).Draw(t, "open")...)
+				} else {
+					data = append(data, rapid.SampledFrom([]string{"[", "{", `{"a":`, "[[", `[{"a":`, `{"type":`, `{"value":`, `["list",`, `["object",{"a":`, `["tuple",[`}).Draw(t, "open")...)
+				}
+			}
 			for i := 0; i < n; i++ {
 				if format == "msgpack" {
 					data = append(data, rapid.SampledFrom(msgpackAtoms).Draw(t, "atom")...)
@@ -192,7 +208,11 @@ func genRaw(format string, decs []string) func(t *rapid.T) Input {
 		ty := spec.Dynamic
 		dec := rapid.SampledFrom(decs).Draw(t, "dec")
 		if IsValueDecoder(dec) {
-			ty = gen.Type(gen.TypeOpts{Depth: 2, Dynamic: true, Capsule: format != "msgpack"}).Draw(t, "type")
+			o := gen.TypeOpts{Depth: 2, Dynamic: true, Capsule: format != "msgpack"}
+			ty = gen.Type(o).Draw(t, "type")
+			for i := 0; i < 3 && ty.IsPrim(); i++ {
+				ty = gen.Type(o).Draw(t, "type") // prefer structured and dynamic targets
+			}
 		}
 		return mkInput(dec, ty, data, nil, "", true)
 	}
